@@ -75,11 +75,15 @@ func getoptified(args []string) []string {
 	return v
 }
 
-// sortDirect runs the real verb: the verb's own command-line parser builds the
+// sortDirectRecs runs the real verb: the verb's own command-line parser builds the
 // transformer, every record is fed through Transform, then end of stream.
 // Returns the output order as input indices (-1: an output record that is not
-// byte-identical to any input record).
-func sortDirect(args []string, in [][]sym, names []string) (out []int, err string) {
+// byte-identical to any not-yet-matched input record). Input records that are
+// byte-identical to each other (possible only for records without an index
+// field) are indistinguishable from the outside: an output record that is not
+// an unchanged input record object is matched with the earliest unmatched
+// input record of its text.
+func sortDirectRecs(args []string, n int, fields func(j int) (keys, vals []string)) (out []int, err string) {
 	// main applies lib.Getoptify to the whole command line before any verb parser sees it ("-cr" -> "-c -r")
 	args = getoptified(args)
 	argi := 0
@@ -91,15 +95,16 @@ func sortDirect(args []string, in [][]sym, names []string) (out []int, err strin
 		return nil, fmt.Sprintf("command line %v: parser stopped at token %d", args, argi)
 	}
 	ctx := types.NewContext()
-	lines := make(map[string]int, len(in))
+	recs := make([]*mlrval.Mlrmap, n)
+	kss, vss := make([][]string, n), make([][]string, n)
 	var outl []*types.RecordAndContext
-	for j, t := range in {
-		ks, vs := recFields(j, t, names)
+	for j := 0; j < n; j++ {
+		ks, vs := fields(j)
 		m := mlrval.NewMlrmapAsRecord()
 		for x := range ks {
 			m.PutReference(ks[x], mlrval.FromDeferredType(vs[x]))
 		}
-		lines[recLine(ks, vs, ",")] = j
+		recs[j], kss[j], vss[j] = m, ks, vs
 		if e := tr.Transform(types.NewRecordAndContext(m, ctx), &outl, nil, nil); e != nil {
 			return nil, "Transform: " + e.Error()
 		}
@@ -113,17 +118,50 @@ func sortDirect(args []string, in [][]sym, names []string) (out []int, err strin
 	if len(outl) == 0 || !outl[len(outl)-1].EndOfStream {
 		return nil, "end-of-stream marker not forwarded last"
 	}
+	used := make([]bool, n)
 	for _, rc := range outl[:len(outl)-1] {
 		if rc.EndOfStream || rc.Record == nil {
 			return nil, "non-record item in output"
 		}
-		j, ok := lines[mapLine(rc.Record)]
-		if !ok {
-			j = -1
+		// fast path: the verb hands the input record object on; the object only
+		// says WHICH input record to compare with, the fields are compared in full
+		j := -1
+		for x := range recs {
+			if recs[x] == rc.Record {
+				if !used[x] && sameFields(rc.Record, kss[x], vss[x]) {
+					j = x
+				}
+				break
+			}
+		}
+		if j < 0 {
+			// by text: the earliest unmatched input record with the same bytes
+			l := mapLine(rc.Record)
+			for x := range recs {
+				if !used[x] && recLine(kss[x], vss[x], ",") == l {
+					j = x
+					break
+				}
+			}
+		}
+		if j >= 0 {
+			used[j] = true
 		}
 		out = append(out, j)
 	}
 	return out, ""
+}
+
+// sameFields: the record has exactly these fields with exactly these texts, in this order.
+func sameFields(m *mlrval.Mlrmap, ks, vs []string) bool {
+	i := 0
+	for pe := m.Head; pe != nil; pe = pe.Next {
+		if i >= len(ks) || pe.Key != ks[i] || pe.Value.String() != vs[i] {
+			return false
+		}
+		i++
+	}
+	return i == len(ks)
 }
 
 func listText(in [][]sym) string {
@@ -142,25 +180,50 @@ func listText(in [][]sym) string {
 	return "[" + strings.Join(parts, " | ") + "]"
 }
 
-func replayFor(args []string, in [][]sym, names []string, out []int) map[string]any {
+func replayFor(args []string, n int, fields func(j int) ([]string, []string), out []int) map[string]any {
 	var lines []string
-	for j, t := range in {
-		ks, vs := recFields(j, t, names)
+	for j := 0; j < n; j++ {
+		ks, vs := fields(j)
 		lines = append(lines, recLine(ks, vs, ";"))
 	}
 	return map[string]any{
 		"command":      "mlr --ifs ';' --ofs ';' " + strings.Join(args, " "),
 		"input_lines":  lines,
 		"output_order": out,
-		"note":         "records are DKVP with ';' as field separator so that values may contain commas; field i is the input position",
+		"note":         "records are DKVP with ';' as field separator so that values may contain commas; field i (when present) is the input position; byte-identical input records are matched earliest-first",
 	}
 }
 
 type verbEval struct {
-	w      *vf.Worker
-	st     orderStats
-	names  []string
-	nviol  map[string]int
+	w     *vf.Worker
+	st    orderStats
+	names []string
+	nviol map[string]int
+	// names.go: key slots mapped onto (possibly repeated) field names and a
+	// per-record shape; nil = one distinct name per slot, recFields layout
+	lay    *layout
+	shapes []int
+}
+
+// fieldsOf lays out input record j of the current case.
+func (e *verbEval) fieldsOf(in [][]sym) func(j int) ([]string, []string) {
+	if e.lay == nil {
+		return func(j int) ([]string, []string) { return recFields(j, in[j], e.names) }
+	}
+	return func(j int) ([]string, []string) { return e.lay.fields(j, in[j], e.shapes[j]) }
+}
+
+// caseText: the key tuples of the case, plus the record shapes when they vary.
+func (e *verbEval) caseText(in [][]sym) string {
+	t := listText(in)
+	if e.lay == nil {
+		return t
+	}
+	var b strings.Builder
+	for _, s := range e.shapes[:len(in)] {
+		b.WriteString(shapeNames[s][:1])
+	}
+	return t + "/shapes=" + b.String()
 }
 
 // violation records at most 2 violations per (class, trigger label, flag
@@ -181,7 +244,7 @@ func (e *verbEval) violation(prefix, cls string, args []string, in [][]sym, what
 		e.w.Count("violations_counted_not_listed:"+prefix+cls+label, 1)
 		return
 	}
-	e.w.Violation(fmt.Sprintf("%s%s%s:%s:%s", prefix, cls, label, flags, listText(in)), what, replay)
+	e.w.Violation(fmt.Sprintf("%s%s%s:%s:%s", prefix, cls, label, flags, e.caseText(in)), what, replay)
 }
 
 func triggerLabel(args []string, in [][]sym) string {
@@ -220,25 +283,26 @@ func (e *verbEval) eval(tag string, args []string, kinds []kind, in [][]sym) {
 	e.w.Eval(1)
 	var out []int
 	var errs string
-	p, stack := vf.Try(func() { out, errs = sortDirect(args, in, e.names) })
+	fields := e.fieldsOf(in)
+	p, stack := vf.Try(func() { out, errs = sortDirectRecs(args, len(in), fields) })
 	if p != nil {
-		e.violation("sort-", "panic", args, in, fmt.Sprintf("mlr %s panics: %v", strings.Join(args, " "), p), map[string]any{"stack": stack, "replay": replayFor(args, in, e.names, nil)})
+		e.violation("sort-", "panic", args, in, fmt.Sprintf("mlr %s panics: %v", strings.Join(args, " "), p), map[string]any{"stack": stack, "replay": replayFor(args, len(in), fields, nil)})
 		return
 	}
 	if errs != "" {
-		e.violation("sort-", "error", args, in, fmt.Sprintf("mlr %s: %s", strings.Join(args, " "), errs), replayFor(args, in, e.names, nil))
+		e.violation("sort-", "error", args, in, fmt.Sprintf("mlr %s: %s", strings.Join(args, " "), errs), replayFor(args, len(in), fields, nil))
 		return
 	}
 	for _, j := range out {
 		if j < 0 {
-			e.violation("sort-", "changed", args, in, fmt.Sprintf("mlr %s on %s: an output record is not byte-identical to any input record", strings.Join(args, " "), listText(in)), replayFor(args, in, e.names, out))
+			e.violation("sort-", "changed", args, in, fmt.Sprintf("mlr %s on %s: an output record is not byte-identical to any (unmatched) input record", strings.Join(args, " "), e.caseText(in)), replayFor(args, len(in), fields, out))
 			return
 		}
 	}
 	before := e.st.strict
 	cls, what := checkSorted(kinds, in, out, &e.st)
 	if cls != "" {
-		e.violation("sort-", cls, args, in, fmt.Sprintf("mlr %s on %s: %s", strings.Join(args, " "), listText(in), what), replayFor(args, in, e.names, out))
+		e.violation("sort-", cls, args, in, fmt.Sprintf("mlr %s on %s: %s", strings.Join(args, " "), e.caseText(in), what), replayFor(args, len(in), fields, out))
 		return
 	}
 	if e.st.strict > before {
@@ -294,7 +358,9 @@ func alphaK2(quick bool) (a, b []sym) {
 	a = []sym{num("1", 1), num("1.0", 1), num("10", 10), str("a9"), str("a10"), str("Ab"), str(""), missingSym, str("x"), str("x,y")}
 	b = []sym{num("2", 2), num("0x2", 2), str("B"), str("b"), missingSym, str("z"), str("y,z")}
 	if quick {
-		a = []sym{num("1", 1), num("1.0", 1), num("10", 10), str("a9"), str("a10"), str("Ab"), missingSym, str("x"), str("x,y")}
+		// the first-key alphabet keeps a symbol of EVERY class (the empty value included): later keys are
+		// consulted only on a first-key tie, so a class absent here is a class whose ties are never seen
+		a = []sym{num("1", 1), num("1.0", 1), num("10", 10), str("a9"), str("a10"), str("Ab"), str(""), missingSym, str("x"), str("x,y")}
 		b = []sym{num("2", 2), num("0x2", 2), str("B"), str("b"), str("z"), str("y,z")}
 	}
 	return
@@ -578,22 +644,26 @@ func movedToHead(ks, vs, names []string) ([]string, []string) {
 func (e *verbEval) evalCLI(mainFlags, verbArgs []string, kinds []kind, in [][]sym, ifs string) {
 	e.w.Eval(1)
 	lines := make([]string, len(in))
-	idxOf := map[string]int{}
+	// text -> input indices not yet matched (byte-identical input records,
+	// possible only without an index field, are matched earliest-first)
+	idxOf := map[string][]int{}
 	moveHead := len(verbArgs) > 1 && verbArgs[1] == "-b"
+	fields := e.fieldsOf(in)
 	for j, t := range in {
-		ks, vs := recFields(j, t, e.names)
+		ks, vs := fields(j)
 		lines[j] = recLine(ks, vs, ifs)
 		if moveHead {
 			// "-b Move sort fields to start of record": expected record text is the moved one
 			// (for records lacking a key the usage says nothing: either form is accepted)
 			mk, mv := movedToHead(ks, vs, e.names)
-			idxOf[recLine(mk, mv, ifs)] = j
-			if hasMissing(t) {
-				idxOf[lines[j]] = j
+			ml := recLine(mk, mv, ifs)
+			idxOf[ml] = append(idxOf[ml], j)
+			if hasMissing(t) && ml != lines[j] {
+				idxOf[lines[j]] = append(idxOf[lines[j]], j)
 			}
 			continue
 		}
-		idxOf[lines[j]] = j
+		idxOf[lines[j]] = append(idxOf[lines[j]], j)
 	}
 	r := runSortCLI(mainFlags, verbArgs, lines)
 	cmd := "mlr " + strings.Join(append(append([]string{}, mainFlags...), verbArgs...), " ")
@@ -605,18 +675,19 @@ func (e *verbEval) evalCLI(mainFlags, verbArgs []string, kinds []kind, in [][]sy
 	var out []int
 	if r.Stdout != "" {
 		for _, l := range strings.Split(strings.TrimSuffix(r.Stdout, "\n"), "\n") {
-			j, ok := idxOf[l]
-			if !ok {
-				e.violation("cli-sort-", "changed", verbArgs, in, fmt.Sprintf("%s: output line %q is not byte-identical to any input record", cmd, l), replay)
+			q := idxOf[l]
+			if len(q) == 0 {
+				e.violation("cli-sort-", "changed", verbArgs, in, fmt.Sprintf("%s: output line %q is not byte-identical to any (unmatched) input record", cmd, l), replay)
 				return
 			}
-			out = append(out, j)
+			out = append(out, q[0])
+			idxOf[l] = q[1:]
 		}
 	}
 	before := e.st.strict
 	cls, what := checkSorted(kinds, in, out, &e.st)
 	if cls != "" {
-		e.violation("cli-sort-", cls, verbArgs, in, fmt.Sprintf("%s on %s: %s", cmd, listText(in), what), replay)
+		e.violation("cli-sort-", cls, verbArgs, in, fmt.Sprintf("%s on %s: %s", cmd, e.caseText(in), what), replay)
 		return
 	}
 	if e.st.strict > before {
